@@ -63,14 +63,20 @@ TreeDefectTexts(m, pre, quoted) ==
         first("{*}[" \o st \o "]\n \"x_999999999999999999999999\"\n"),                       \* 24-digit pdf id
         first("{*}[" \o st \o "]\n \"x_000000000000000000000000000001\"\n"),                 \* 30 digits, value 1 (a legal spelling)
         first("{*}[99]\n \"x_1\"\n"),                                                        \* a state tag no state uses
-        first("{*}[" \o st \o "]\n{\n 0 " \o (IF Len(m.qs) > 0 THEN m.qs[1].name ELSE "Q") \o " 0 0 \n}\n") >>   \* a node that refers to itself
+        first("{*}[" \o st \o "]\n{\n 0 " \o (IF Len(m.qs) > 0 THEN m.qs[1].name ELSE "Q") \o " 0 0 \n}\n"),     \* a node that refers to itself
+        \* references that all resolve but close a cycle ("trees" that are not trees): on the no branch, on the yes branch,
+        \* through a second node, and two nodes that only refer to each other (no leaf at all)
+        "QS " \o q1 \o " { \"*\" }\n\n" \o "{*}[" \o st \o "]\n{\n 0 " \o q1 \o " -0 \"x_1\" \n}\n" \o others,
+        "QS " \o q1 \o " { \"*\" }\n\n" \o "{*}[" \o st \o "]\n{\n 0 " \o q1 \o " \"x_1\" -0 \n}\n" \o others,
+        "QS " \o q1 \o " { \"*\" }\n\n" \o "{*}[" \o st \o "]\n{\n 0 " \o q1 \o " -1 \"x_1\" \n -1 " \o q1 \o " \"x_1\" -0 \n}\n" \o others,
+        "QS " \o q1 \o " { \"*\" }\n\n" \o "{*}[" \o st \o "]\n{\n 0 " \o q1 \o " -1 -1 \n -1 " \o q1 \o " -0 -0 \n}\n" \o others >>
 DocDefects(v) ==
-  {[op |-> "doc", voice |-> Render([v EXCEPT !.dur = WithRaw(v.dur, TreeDefectTexts(v.dur, "dur_", v.quoted)[d])])] : d \in 1..12}
+  {[op |-> "doc", voice |-> Render([v EXCEPT !.dur = WithRaw(v.dur, TreeDefectTexts(v.dur, "dur_", v.quoted)[d])])] : d \in 1..16}
   \cup UNION { {[op |-> "doc", voice |-> Render([v EXCEPT !.streams[s].model =
-                     WithRaw(v.streams[s].model, TreeDefectTexts(v.streams[s].model, v.streams[s].pre, v.quoted)[d])])] : d \in 1..12}
+                     WithRaw(v.streams[s].model, TreeDefectTexts(v.streams[s].model, v.streams[s].pre, v.quoted)[d])])] : d \in 1..16}
               : s \in 1..Len(v.streams) }
   \cup UNION { {[op |-> "doc", voice |-> Render([v EXCEPT !.streams[s].gv =
-                     WithRaw(v.streams[s].gv, TreeDefectTexts(v.streams[s].gv, "gv_" \o v.streams[s].pre, v.quoted)[d])])] : d \in 1..12}
+                     WithRaw(v.streams[s].gv, TreeDefectTexts(v.streams[s].gv, "gv_" \o v.streams[s].pre, v.quoted)[d])])] : d \in 1..16}
               : s \in {s \in 1..Len(v.streams) : v.streams[s].usegv} }
 
 DocBase(k) == LET v == Doc(DocFams[k])  r == Render(v)  bs == Blobs(v)  lay == Layout(bs, 0)
@@ -79,11 +85,11 @@ DocBase(k) == LET v == Doc(DocFams[k])  r == Render(v)  bs == Blobs(v)  lay == L
    cuts |-> <<hs>> \o [i \in 1..Len(lay) |-> hs + lay[i].hi + 1],
    texts |-> [i \in 1..Len(SelectSeq(bs, LAMBDA x : x.toks[1].t = "txt")) |->
                 LET nm == SelectSeq(bs, LAMBDA x : x.toks[1].t = "txt")[i].name  e == LayOf(lay, nm) IN [lo |-> hs + e.lo, hi |-> hs + e.hi]],
-   toks |-> r.data,
+   toks |-> r.data, refs |-> <<>>,
    \* complete re-renderings are only enumerated as single faults (they replace the whole file anyway)
    extra |-> IF Depth = 1 THEN TxtDefects(v, r) \cup DocDefects(v) ELSE TxtDefects(v, r)]
 FileBase == LET j == JsonDeserialize(IOEnv.BASE) IN
-  [id |-> 0, kv |-> j.kv, total |-> j.total, cuts |-> j.cuts, texts |-> j.texts, toks |-> <<>>, extra |-> {}]
+  [id |-> 0, kv |-> j.kv, total |-> j.total, cuts |-> j.cuts, texts |-> j.texts, toks |-> <<>>, refs |-> j.refs, extra |-> {}]
 Base(k) == IF Mode = "file" THEN FileBase ELSE DocBase(k)
 AllSingles(b) == Singles(b, G) \cup b.extra
 
